@@ -518,12 +518,12 @@ def _strategies():
     }
     lv_entry = st.binary(max_size=20).map(lambda b: bytes([len(b)]) + b)
     table = st.one_of(
-        st.just(R.STANDARD_LRRP_TABLE.hex()),
         st.just(""),
+        st.just(R.STANDARD_LRRP_TABLE.hex()),
         st.lists(lv_entry, min_size=1, max_size=12).map(lambda es: b"".join(es)).filter(lambda t: len(t) != 1).map(bytes.hex),
         st.sampled_from([126, 127, 128, 129]).flatmap(lambda n: st.binary(min_size=n - 1, max_size=n - 1).map(lambda b: (bytes([n - 1]) + b).hex())),
     )
-    doc_ids = sorted(R.DOC_GROUP)
+    doc_ids = sorted(R.NCDT_IDS) + sorted(set(R.DOC_GROUP) - R.NCDT_IDS)  # shrinks towards ids without inline table
 
     @st.composite
     def doc(draw):
